@@ -3,6 +3,8 @@ package hx
 import (
 	"fmt"
 	"os"
+	"runtime"
+	"time"
 
 	"verifharness/sym"
 )
@@ -21,7 +23,20 @@ func NativeRun(name, job string) {
 		fmt.Fprintln(os.Stderr, "unknown harness", name)
 		os.Exit(2)
 	}
+	base := runtime.NumGoroutine()
 	h.Run(stripOpts(job))
+	// quiescence: goroutines started by the job must be gone after a grace period
+	leaked := 0
+	for i := 0; i < 40; i++ {
+		leaked = runtime.NumGoroutine() - base
+		if leaked <= 0 {
+			break
+		}
+		time.Sleep(10 * time.Millisecond)
+	}
+	if leaked > 0 {
+		fmt.Printf("NATIVE-LEAK %d goroutine(s) still alive 400ms after the call returned\n", leaked)
+	}
 	for _, n := range sym.Notes {
 		fmt.Println("NOTE " + n)
 	}
